@@ -107,8 +107,9 @@ def mechanism_site(w, op, res, facts=None) -> str:
     replace_nodes_and_values -> 'composite'; a rename rejected by the value's backing tensor
     -> 'rejected-by-backing-tensor'; convenience.replace_all_uses_with(replace_graph_outputs=True): when a
     pair was inadmissible on its own merits in the state BEFORE the call (facts, see rauw_facts)
-    -> 'pair-inadmissible-on-entry' (nothing an earlier pair did is needed to reject it); otherwise, over
-    outputs of several graphs -> 'cross-graph-outputs' (the rejection depends on what earlier pairs did)."""
+    -> 'pair-inadmissible-on-entry' (nothing an earlier pair did is needed to reject it); otherwise the
+    rejection depends on what earlier pairs of the same call did: over outputs of several graphs
+    -> 'cross-graph-outputs', within the outputs of one graph -> 'every-pair-admissible-on-entry'."""
     k = op[0]
     if k == "c_rnv":
         return "composite"
@@ -124,6 +125,8 @@ def mechanism_site(w, op, res, facts=None) -> str:
                 return "cross-graph-outputs"
         except Exception:  # noqa: BLE001
             pass
+        if facts is not None and facts.get("pairs", 0) >= 2:
+            return "every-pair-admissible-on-entry"
     return histories.raise_site(res.exc)
 
 
@@ -180,7 +183,7 @@ class SnapshotMonitor:
 def plan(tier: str) -> dict:
     quick = tier == "quick"
     return {
-        "cases": 2400 if quick else 140000,
+        "cases": 2100 if quick else 140000,
         "shards": 16,
         "budget_s": 35 if quick else 540,
         "floors": {"raising_calls_judged": 6000 if quick else 200000, "judged:sort(nested,cyclic)": 300 if quick else 20000,
